@@ -183,6 +183,13 @@ func Exec(d *decode.D, p []Op) {
 		case "fmtbuf":
 			br := derivedReader(d, o.W, o.D)
 			d.FieldFormatBitBuf(o.Name, br, subGroup(o.Body), nil)
+		case "rmlast":
+			// a decoder replacing a placeholder field: remove what was added last here
+			if c, ok := d.Value.V.(*decode.Compound); ok && len(c.Children) > 0 {
+				if err := c.Children[len(c.Children)-1].Remove(); err != nil {
+					d.Fatalf("vdsl rmlast: %s", err)
+				}
+			}
 		case "fail":
 			d.Fatalf("vdsl fail")
 		case "errorf":
